@@ -717,6 +717,13 @@ impl ExecutionState {
                 return true;
             }
 
+            // The execution was stopped early and `cleanup` is unwinding its unfinished tasks: a scheduling point
+            // reached from a destructor on such a stack has nothing left to schedule, and must not suspend the
+            // stack that is being unwound.
+            if state.in_cleanup && state.current_task == ScheduledTask::Stopped {
+                return false;
+            }
+
             debug_assert!(
                 matches!(state.current_task, ScheduledTask::Some(_) | ScheduledTask::Finished)
                     && state.next_task == ScheduledTask::None,
